@@ -156,6 +156,24 @@ def directed_packages():
          '<span> xmlns:meta = no</span></p><t:p xmlns:t="%s"\n xmlns:dc="http://purl.org/dc/elements/1.1/">second</t:p></text></body></document-content>') % (off, txt, txt)
     out.append(('default namespace on the root, declarations and look-alikes further down',
                 P.make_package([('content.xml', c, 'text/xml'), ('styles.xml', P.styles_xml(), 'text/xml'), ('meta.xml', P.meta_xml(), 'text/xml')])))
+    # one name in two style families: a paragraph style of content.xml and a text style of styles.xml do not collide
+    px = '<style:style style:name="X1" style:family="paragraph"><style:paragraph-properties fo:text-align="center"/></style:style>'
+    tx = '<style:style style:name="X1" style:family="text"><style:text-properties fo:font-weight="bold"/></style:style>'
+    master = '<style:master-page style:name="Standard" style:page-layout-name="pm1"><style:header><text:p><text:span text:style-name="X1">h</text:span></text:p></style:header></style:master-page>'
+    out.append(('one style name in two families', P.simple_package('<text:p text:style-name="X1">b</text:p>', autostyles=px, styles_auto='<style:page-layout style:name="pm1"/>' + tx, masterstyles=master)))
+    # embedded objects as office suites write them: a chart with a meta.xml of its own, a formula whose content.xml is MathML
+    obj = lambda n: '<text:p><draw:frame draw:name="%s" svg:width="5cm" svg:height="2cm"><draw:object xlink:href="./%s" xlink:type="simple" xlink:show="embed" xlink:actuate="onLoad"/></draw:frame></text:p>' % (n, n)
+    chart = P.content_xml('<chart:chart chart:class="chart:bar"><chart:plot-area/></chart:chart>', kind='chart')
+    math = ('<?xml version="1.0" encoding="UTF-8"?>\n<math xmlns="http://www.w3.org/1998/Math/MathML" display="block"><semantics><mrow><mi>a</mi><mo stretchy="false">+</mo><mn>1</mn></mrow>'
+            '<annotation encoding="StarMath 5.0">a + 1</annotation></semantics></math>')
+    out.append(('an object with a meta.xml of its own', P.make_package(
+        [('content.xml', P.content_xml(obj('Object 1')), 'text/xml'), ('styles.xml', P.styles_xml(), 'text/xml'), ('meta.xml', P.meta_xml(), 'text/xml'),
+         ('Object 1/content.xml', chart, 'text/xml'), ('Object 1/styles.xml', P.styles_xml(), 'text/xml'), ('Object 1/meta.xml', P.meta_xml('<meta:generator>ChartApp/2</meta:generator><dc:title>the chart</dc:title>'), 'text/xml'),
+         ('Object 1/', '', 'application/vnd.oasis.opendocument.chart')])))
+    out.append(('a formula object (MathML content.xml)', P.make_package(
+        [('content.xml', P.content_xml(obj('Object 1')), 'text/xml'), ('styles.xml', P.styles_xml(), 'text/xml'), ('meta.xml', P.meta_xml(), 'text/xml'),
+         ('Object 1/content.xml', math, 'text/xml'), ('Object 1/settings.xml', P.settings_xml(), 'text/xml'),
+         ('Object 1/', '', 'application/vnd.oasis.opendocument.formula')])))
     return out
 
 def run_one(ctx, d, refattrs, data, case):
